@@ -754,3 +754,55 @@ mod tests {
         );
     }
 }
+
+/// Verification hooks: the private pure stages, callable from an out-of-tree
+/// harness. Compiled only with `--cfg anda_verif`.
+#[allow(unexpected_cfgs)]
+#[cfg(anda_verif)]
+pub mod verif {
+    use super::*;
+
+    /// One eligible Assertion, as `aggregate` sees it.
+    pub struct VerifCandidate {
+        pub id: u64,
+        pub actor: String,
+        pub evidence: Vec<String>,
+        pub stance: String,
+        pub confidence: f64,
+        pub opposes_target: bool,
+    }
+
+    /// `aggregate` over caller-supplied candidates.
+    pub fn aggregate(candidates: &[VerifCandidate], opposing: bool) -> (f64, usize) {
+        let candidates: Vec<Candidate> = candidates
+            .iter()
+            .map(|c| Candidate {
+                id: ElementId::new(anda_kip::ElementKind::Assertion, c.id),
+                actor: c.actor.clone(),
+                evidence: c.evidence.clone(),
+                stance: c.stance.clone(),
+                confidence: c.confidence,
+                opposes_target: c.opposes_target,
+            })
+            .collect();
+        super::aggregate(&candidates, opposing)
+    }
+
+    /// `classify` over caller-supplied scores and group counts.
+    pub fn classify(
+        support: f64,
+        opposition: f64,
+        support_groups: usize,
+        opposition_groups: usize,
+        uncertain: usize,
+        policy: &Policy,
+    ) -> BeliefStatus {
+        let ledger = Ledger {
+            support_groups,
+            opposition_groups,
+            uncertain: vec![String::new(); uncertain],
+            ..Default::default()
+        };
+        super::classify(support, opposition, &ledger, policy)
+    }
+}
